@@ -193,10 +193,11 @@ class Group:
             if spec.id is None:
                 id = "gw" + str(self._autoidcounter)
                 self._autoidcounter += 1
-                if id in self or id in self._pending_ids:
+                # (pending first: makegateway registers before it un-reserves)
+                if id in self._pending_ids or id in self:
                     raise ValueError(f"already have gateway with id {id!r}")
                 spec.id = id
-            elif spec.id in self or spec.id in self._pending_ids:
+            elif spec.id in self._pending_ids or spec.id in self:
                 # refuse before any process or connection is created for it
                 raise ValueError(f"already have gateway with id {spec.id!r}")
             if _reserve:
